@@ -55,6 +55,9 @@ static void do_push(int id)
 	case 1: r = cds_lfs_push(&ls, &items[id].l); break;
 	default: r = cds_lfs_push_rcu(&rs, &items[id].r); break;
 	}
+	/* x86-TSO: a wfs push ends with a plain store of node->next which may still be buffered when the call
+	 * returns; for the WOULDBLOCK rule the push lasts until its stores are globally visible */
+	cmm_smp_mb();
 	vrt_h_ret(h, r);
 }
 
